@@ -258,6 +258,34 @@ Proof.
   split; [exact HP|split; [exact Hn|exact IP]].
 Qed.
 
+(* the package-level model above is not executed by the correspondence run; the row-block model `par_jacobi_iter`
+   (every rank handed the global rows of P) is.  Under the hypotheses of both statements the two represent the
+   same operator, so what the run ties to the library is also what the package theorem speaks about *)
+Theorem C16_package_model_agrees_with_executed_model (exact : F -> Prop) (w : world) (ids colmaps : list (list nat))
+        (big : nat) (sizes : list nat) (sA P : csr F) (pa pc : list nat) k i j :
+  exact zero -> (forall x y, exact x -> exact y -> exact (add x y)) ->
+  (forall x y, exact x -> exact y -> exact (mul x y)) -> (forall x, exact x -> exact (opp x)) ->
+  (forall x, exact x -> small2 x = true -> x = zero) -> (forall x, exact x -> small x = true -> x = zero) ->
+  csr_wf sA -> csr_nc sA = csr_nr sA -> psum pa = csr_nr sA ->
+  fwd_ok w ids colmaps big = true -> csr_nr sA <= big ->
+  (forall r k, needs F sA pa pa r k = true -> r < length w /\ In k (nth r colmaps [])) ->
+  (forall i k, exact (den sA i k)) ->
+  csr_wf P -> csr_nr P = csr_nr sA -> (forall k j, exact (den P k j)) -> i < csr_nr sA ->
+  fold_right Nat.add 0 sizes = length (csr_rows P) ->
+  den (par_smooth_iter_pkg F zero add mul opp small2 small w ids colmaps k sA P pa pc) i j =
+  den (par_jacobi_iter F zero add mul opp small small2 sizes k sA P) i j.
+Proof.
+  intros I0 Ia Im Io Is1 Is2 HA Hsq Hp Hok Hbig Hneed IA HP Hn IP Hi Hs.
+  rewrite (C16_par_smooth_k_steps_through_package exact w ids colmaps big sA P pa pc k i j) by assumption.
+  assert (HlA : length (csr_rows sA) = csr_nr sA) by (destruct HA as [H _]; exact H).
+  assert (HlP : length (csr_rows P) = csr_nr sA) by (destruct HP as [H _]; rewrite H; exact Hn).
+  rewrite par_iter_eq by (try exact Hs; rewrite HlA, HlP; reflexivity).
+  rewrite (den_jacobi_iter F zero one add mul sub opp div inv Fth small small2 small_zero small2_zero)
+    by (rewrite HlA, HlP; apply le_n).
+  rewrite HlP. symmetry. apply smooth_den_exact.
+  apply (no_underflow_exact F zero one add mul sub opp (F_R Fth) small2 small exact); assumption.
+Qed.
+
 End C16.
 
 Print Assumptions C16_shapes.
@@ -278,6 +306,7 @@ Print Assumptions C16_par_smooth_eq_seq_partial.
 Print Assumptions C16_par_smooth_step_through_package.
 Print Assumptions C16_par_smooth_step_through_package_exact.
 Print Assumptions C16_par_smooth_k_steps_through_package.
+Print Assumptions C16_package_model_agrees_with_executed_model.
 
 (* ---------- non-vacuity: every hypothesis above is satisfiable, at the executed instance Qc ---------- *)
 From Coq Require Import QArith Qcanon.
